@@ -9,7 +9,46 @@ A_COMMON = [
     "composition argument of DESIGN.md 2.9 (induction over histories from per-method contracts) is argued, not mechanised",
 ]
 
+TECH = ("contract-based deductive verification: PyVC (ast -> VC generator over the real source, sidecar contracts) "
+        "+ z3/cvc5; bounded stand-in on the real code where stated")
+
 PROPS = {
+    "C01": {
+        "modules": ["contracts.c01_memory", "contracts.c01_simplememory", "contracts.c01_graph"],
+        "claim_level": "proof",
+        "design_ref": "6.1",
+        "technique": TECH,
+        "clauses_decided": [
+            "Memory.add: representation invariant (46 clauses: three indexes agree, per-context index is the transpose "
+            "of the context info, union index <=> some real context, ownership of nested dicts) preserved; exact "
+            "effect on the abstract view Q (proved)",
+            "Memory.triples: for all 8 pattern shapes x context given/None the yielded triples are exactly the matching "
+            "triples of the requested graph, no duplicates, attached context generator = the triple's graphs (proved: "
+            "soundness per yield, completeness per argument shape, pairwise duplicate-freedom)",
+            "Memory.triples under interference: heap havocked at every yield by an arbitrary sequence of public "
+            "mutators: never raises, never iterates a live container across a yield, yields only triples that match "
+            "and were in the graph at some moment since iteration began (proved)",
+            "Memory.__len__, __contexts, __triple_has_context, add_graph (proved)",
+            "SimpleMemory.add, remove, triples (8 shapes), __len__ (proved, remove/len by loop invariants)",
+            "Graph.add, remove, triples (non-path), __len__, __iter__, __contains__, set, addN, +=, -=, +, -, *, ^ "
+            "against the abstract Store contract, for all terms incl. falsy ones (proved)",
+        ],
+        "clauses_not_decided": [
+            "Memory.remove / remove_graph: not yet under proof (store-iterates-its-own-generator-while-mutating); "
+            "their abstract contract is assumed for Memory and covered by the bounded stand-in only",
+            "real threads; stores other than Memory and SimpleMemory",
+        ],
+        "explanation": "Every function between the property and the code has a contract; the concrete stores are "
+                       "proved against their abstract views, Graph against the abstract Store contract; the "
+                       "composition over histories is the induction of DESIGN.md 2.9.",
+        "assumptions": A_COMMON,
+        "level_text": "Deductive proof (all inputs, all 8 pattern shapes, falsy terms, all interleavings of an open "
+                      "iterator with mutators) of the contracts listed under clauses_decided; Memory.remove is "
+                      "bounded only, so the evidence level degrades to 'other' whenever anything is undecided.",
+        "level_note": "Trusted: PyVC encoding of the Python subset, z3/cvc5, axiomatised builtins, the abstract "
+                      "Store contract <-> concrete store refinement argument (DESIGN 6.1), Memory.remove contract "
+                      "(assumed, bounded), __ctx_to_str key model.",
+    },
     "C17": {
         "modules": ["contracts.c17_store"],
         "claim_level": "proof",
